@@ -28,6 +28,10 @@ CONSTANTS Lifetimes,            \* lifetimes (ms) of the relation part
           Dev_ServerRekeyInPlace,
           Part                  \* "relation" | "machine"
 
+LifetimesQ == {100 * i : i \in 1..100} \cup {1000 * i : i \in 11..60} \cup {1333, 1334, 2001, 2666, 2667, 3999, 4000, 3600000}
+LifetimesT == 1..20000 \cup {60000 * i : i \in 1..120}
+LifetimesG == {50 * i : i \in 1..400} \cup {1333, 1334, 2001, 2666, 2667, 3600000}
+
 \* ---- relation ----
 RenewDelay(l) == IF Dev_RenewFloorSeconds THEN 1000 * ((l * 3) \div 4000)   \* floor(l/1000 * 0.75) seconds
                  ELSE (l * 3) \div 4
@@ -64,8 +68,8 @@ Send(dir) == /\ Part = "machine" /\ Cardinality(inflight) < 2
 Recv(m) == /\ m \in inflight
            /\ inflight' = inflight \ {m}
            /\ IF m.tok \in (IF m.dir = "c2s" THEN srvKnows ELSE cliKnows)
-              THEN accepted' = accepted + 1 /\ UNCHANGED refused
-              ELSE refused' = refused + 1 /\ UNCHANGED accepted
+              THEN accepted' = 1 /\ UNCHANGED refused
+              ELSE refused' = 1 /\ UNCHANGED accepted
            /\ UNCHANGED <<lt, now, tok, created, renewed, srvKnows, cliKnows>>
 
 \* the renewal: OPN request/response; both sides switch to the new token
